@@ -30,10 +30,11 @@ type Change struct {
 	Lines    []Line
 	Name     string
 	Comments []string
+	MetaText string // when non-empty, the metavariable section verbatim (layout variants)
 }
 
 var (
-	metaRe = regexp.MustCompile(`«([A-Za-z_][A-Za-z0-9_]*)»`)
+	metaRe = regexp.MustCompile(`«([\pL_][\pL\pN_]*)»`)
 	dotsRe = regexp.MustCompile(`‹(\d+):([a-z]+)›`)
 )
 
@@ -67,6 +68,9 @@ func refRender(t string) string {
 
 // MetaSection renders the metavariable declarations.
 func (c *Change) MetaSection() string {
+	if c.MetaText != "" {
+		return c.MetaText
+	}
 	var sb strings.Builder
 	for _, v := range c.Meta {
 		fmt.Fprintf(&sb, "var %s %s\n", v.Name, v.Kind)
